@@ -1,9 +1,9 @@
 package props
 
 import (
-	"google.golang.org/grpc"
 	"context"
 	"fmt"
+	"google.golang.org/grpc"
 	"io"
 
 	"github.com/avos-io/goat/vh/env"
